@@ -15,9 +15,9 @@ import (
 // callee; functions listed as exempt are reported as assumptions. A call through a function value or
 // an interface to those packages cannot be seen here (there is none today; a new one is not detected).
 type ConfineConfig struct {
-	Packages  []string `json:"packages"`    // directories relative to the module root
-	Callees   []string `json:"callee_pkgs"` // e.g. "os", "io/ioutil"
-	ExemptFns []string `json:"exempt_functions"`
+	Packages      []string `json:"packages"`    // directories relative to the module root
+	Callees       []string `json:"callee_pkgs"` // e.g. "os", "io/ioutil"
+	ExemptFns     []string `json:"exempt_functions"`
 	ExemptCallees []string `json:"exempt_callees"`
 }
 
